@@ -23,7 +23,7 @@ RULE = (
     "instance; non-trivial = tree with >= 3 nodes; distinct = distinct tree fingerprints"
 )
 ASSUMPTIONS = ["all nodes of a tree are registered (handles are held) and no object occurs twice, as the statement requires"]
-MUST_SEE = ["remodelled_class_tree", "interleaved_ancestor_chains", "relative_depth_unchecked", "absolute_after_relative", "both_foreign_keyerrors", "twin_pairs_in_tree", "foreign_twins", "non_ancestor_pairs", "index_ge_10", "root_relative_valueerror", "keyerrors", "subtree_trees", "exact_tuple_hits"]
+MUST_SEE = ["deep_3000_queries", "virtual_subclass_queries", "remodelled_class_tree", "interleaved_ancestor_chains", "relative_depth_unchecked", "absolute_after_relative", "both_foreign_keyerrors", "twin_pairs_in_tree", "foreign_twins", "non_ancestor_pairs", "index_ge_10", "root_relative_valueerror", "keyerrors", "subtree_trees", "exact_tuple_hits"]
 CONFIG = {
     "quick": {"shards": 16, "trees": 400, "max_nodes": 28, "watchdog_s": 300},
     "thorough": {"shards": 32, "trees": 600, "max_nodes": 45, "watchdog_s": 3000},
@@ -375,9 +375,71 @@ def remodel_leg(ctx, U, Tree):
 _main_run_shard = run_shard
 
 
+def deep_leg(ctx, U, Tree):
+    """upward queries on a chain 3000 levels deep, under the interpreter's default recursion limit"""
+    P = U.P
+    leaf = U.cls[f"{P}Leaf"](v=1)
+    n, chain = leaf, [leaf]
+    for _ in range(3000):
+        n = U.cls[f"{P}Un"](child=n)
+        chain.append(n)
+    t = Tree(n)
+    mid = chain[1500]
+    old = sys.getrecursionlimit()
+    sys.setrecursionlimit(1000)
+    try:
+        for name, call, exp in (
+            ("get_depth", lambda: t.get_depth(leaf), 3000),
+            ("get_depth(relative_to)", lambda: t.get_depth(leaf, relative_to=mid), 1500),
+            ("get_depth(relative_to, check_ancestor=False)", lambda: t.get_depth(leaf, relative_to=mid, check_ancestor=False), 1500),
+            ("get_ancestors", lambda: len(list(t.get_ancestors(leaf))), 3000),
+            ("is_ancestor", lambda: t.is_ancestor(leaf, n) and t.is_ancestor(leaf, mid) and not t.is_ancestor(mid, leaf), True),
+            ("get_first_ancestor_of_type", lambda: t.get_first_ancestor_of_type(leaf, U.cls[f"{P}Un"]) is chain[1] and t.get_first_ancestor_of_type(leaf, U.cls[f"{P}List"]) is None, True),
+            ("get_parent / is_in_tree", lambda: t.get_parent(leaf) is chain[1] and t.is_in_tree(mid) and t.is_root(n), True),
+            ("get_xpath", lambda: t.get_xpath(leaf).count("/@child[0]"), 3000),
+        ):
+            ctx.evaluations += 1
+            ctx.count("deep_3000_queries")
+            try:
+                got = call()
+            except RecursionError:
+                got = "RecursionError"
+            if got != exp:
+                ctx.violation("deep-tree", f"{name} on a tree 3000 levels deep gave {got!r}, expected {exp!r}", {"depth": 3000})
+    finally:
+        sys.setrecursionlimit(old)
+    n.detach()
+
+
+def virtual_subclass_leg(ctx, U, Tree):
+    """'instance' means isinstance: a class registered as a virtual subclass of an abstract node base counts"""
+    from abc import ABC
+
+    P = U.P
+    name = f"{P}ScopeBase"
+    if name not in U.module.__dict__:
+        exec(compile(f"class {name}({P}Expr, ABC):\n    pass\n", "<c06 abc>", "exec", dont_inherit=True), U.module.__dict__)
+    Scope = U.module.__dict__[name]
+    Scope.register(U.cls[f"{P}Un"])
+    leaf = U.cls[f"{P}Leaf"](v=5)
+    un = U.cls[f"{P}Un"](child=U.cls[f"{P}List"](items=(leaf,)))
+    top = U.cls[f"{P}List"](items=(U.cls[f"{P}Bin"](left=un, right=U.cls[f"{P}Leaf"](v=6)),))
+    t = Tree(top)
+    ctx.evaluations += 2
+    ctx.count("virtual_subclass_queries")
+    if t.get_first_ancestor_of_type(leaf, Scope) is not un or t.get_first_ancestor_of_type(leaf, (U.cls[f"{P}Bin"], Scope)) is not un:
+        ctx.violation("first_ancestor", "get_first_ancestor_of_type (instance mode) ignores a class registered as virtual subclass of the requested abstract base", {"requested": name})
+    if t.get_first_ancestor_of_type(leaf, Scope, exact_type=True) is not None:
+        ctx.violation("first_ancestor", "get_first_ancestor_of_type (exact mode) returned an instance of another class", {"requested": name})
+    top.detach()
+
+
 def run_shard(ctx):  # noqa: F811 - the main loop, then the legs that need a history of class definitions
     _main_run_shard(ctx)
     if ctx.only_case is None:
         from pyoak.tree import Tree
 
         remodel_leg(ctx, core_universe(), Tree)
+        virtual_subclass_leg(ctx, core_universe(), Tree)
+        if ctx.shard % 4 == 0:
+            deep_leg(ctx, core_universe(), Tree)
